@@ -117,7 +117,20 @@ def programs(draw, tier):
     # an awaiter outside the scope: survives a failure of the subject
     r1 = {'name': 'r1', 'steps': [sleep() for _ in range(draw(st.integers(0, 2)))] + [
         {'op': 'await_task', 'ref': 's0'} for _ in range(draw(st.integers(1, 2)))]}
-    roots = [{'name': h['name'], 'steps': h['steps']} for h in helpers] + [r0, r1]
+    extra = []
+    if draw(st.integers(0, 2)) == 0:
+        # a careless awaiter (a task of another scope that dies of the subject's outcome) next to careful ones that
+        # handle it and go on: what one awaiter does with the exception must not matter to the others
+        for s_ in r1['steps']:
+            if s_['op'] == 'await_task':
+                s_['hold'] = draw(st.sampled_from([2, 4, 8]))
+        r1['steps'] += [{'op': 'await_task', 'ref': 's0'}, sleep()]
+        extra.append({'name': 'r2', 'steps': [sleep() for _ in range(draw(st.integers(0, 3)))] + [
+            {'op': 'scope', 'name': 'S2', 'catch': True, 'body': [sleep()], 'children': [
+                {'name': 'x0', 'steps': [sleep() for _ in range(draw(st.integers(0, 2)))] + [
+                    {'op': 'await_task', 'ref': 's0', 'nocatch': True}, sleep()]}]},
+            sleep(), {'op': 'await_task', 'ref': 's0'}, sleep()]})
+    roots = [{'name': h['name'], 'steps': h['steps']} for h in helpers] + extra + [r0, r1]
     prog = {'start': start, 'objs': objs, 'roots': roots}
     targets = ['s0'] + ['t%d' % i for i in range(nsib)]
     if tier == 'thorough' and draw(st.integers(0, 3)) > 0:
@@ -399,7 +412,7 @@ class C06(Check):
                 out.fail('parent', 'scope_raised:%s' % (leave[0][5][0],), 'scope left with %r;%s' % (leave[0][5], ctx))
             cancelled = {n for n, c in calls.items() if any(RANK[x[2]] < 2 for x in c)}
             for a in self._all_names(prog):
-                if a in cancelled or (a == 's0c' and 's0' in cancelled):
+                if a in cancelled or (a == 's0c' and 's0' in cancelled) or a == 'x0':
                     continue
                 evs = per.get(a, [])
                 if not any(e[3] == 'end' for e in evs):
@@ -412,6 +425,13 @@ class C06(Check):
                     got = [e for e in evs if e[3] == 'end'][0][4]
                     if got != want:
                         out.fail('siblings', 'wrong_end_time', '%s ended at %r, model %r;%s' % (a, got, want, ctx))
+
+        # --- (g) an awaiter that handles the outcome goes on, whatever other awaiters do with it
+        for a in ('r1', 'r2'):
+            if find_act(prog, a) is not None and oc == 'ok' and not any(e[3] == 'end' for e in per.get(a, [])):
+                out.fail('awaiters', 'careful_awaiter_did_not_go_on', 'activity %s handles every outcome of its awaits but never '
+                         'reached its end;%s' % (a, ctx))
+                out.features.add('careless_awaiter')
 
     @staticmethod
     def _all_names(prog):
